@@ -212,11 +212,12 @@ PROPS["C08"] = {
 }
 PROPS["C09"] = {
     "functions": ["_concurrent.TaskFactory.start_task", "_concurrent.TaskFactory.start_task_soon", "_concurrent.TaskFactory._run_background_task",
-                  "_concurrent.TaskFactory.all_task_handles", "_concurrent.run_background_task", "_concurrent.TaskHandle.cancel",
+                  "_concurrent.TaskFactory.all_task_handles", "_concurrent.TaskFactory._run", "_context.Context.start_background_task_factory",
+                  "_concurrent.run_background_task", "_concurrent.TaskHandle.cancel",
                   "_concurrent.TaskHandle.wait_finished", "_context.Context.start_service_task.finalize_service_task"],
-    "trusted": TASK_TRUSTED, "assumptions": CTX_ASSUME + ["TaskFactory._run and Context.start_background_task_factory (task-group body + service task "
-                  "with teardown_action = finished_event.set) are covered by the bounded harness; the finaliser's callable case (C08) gives "
-                  "`teardown waits, does not cancel`"],
+    "trusted": TASK_TRUSTED, "assumptions": CTX_ASSUME + ["TaskFactory._run (waits for the finished event inside its task group) and Context.start_background_task_factory "
+                  "(service task running factory._run with teardown_action = factory._finished_event.set) are verified; with the finaliser's callable "
+                  "case (C08) this gives `teardown signals, then waits for every background task, does not cancel`"],
     "undecided": [],
     "level_text": "Proof: start_task_soon / start_task create a fresh handle (own cancel scope and event), spawn the task wrapper with (func, handle, "
                   "factory.exception_handler) in the factory's group; the handle is in the set iff the spawn succeeded (fixed F10) and the wrapper "
@@ -339,7 +340,7 @@ PROPS["C14"] = {
 
 
 PROPS["C15"] = {
-    "functions": ["_runner._run_application_async", "_context.start_service_task", "_context.Context.__aexit__",
+    "functions": ["_runner._run_application_async", "_runner.run_application", "_context.start_service_task", "_context.Context.__aexit__",
                   "_context.Context._run_teardown_callbacks", "_context.Context.__aenter__", "lemma:frame"],
     "trusted": COMP_TRUSTED + LIFE_TRUSTED + [
         "start_component contract (verified under C05/C07/C14)", "Context.start_service_task contract (verified under C08)",
@@ -347,7 +348,8 @@ PROPS["C15"] = {
         "A-PURE-EXT platform.system / functools.partial / get_cancelled_exc_class are pure", "A-CS CancelScope", "A-EV anyio.Event",
         "anyio.run returns the coroutine's result / propagates its exception; sys.exit(n) raises SystemExit(n) (run_application's last statement, bounded harness)"],
     "assumptions": COMP_ASSUME + [
-        "handle_signals (open_signal_receiver loop) and run_application (logging setup, anyio.run, sys.exit) are covered by the bounded harness only",
+        "handle_signals (open_signal_receiver loop) is covered by the bounded harness only; run_application is verified up to the assumed "
+        "behaviour of anyio.run (returns the coroutine's result / propagates its exception) and sys.exit",
         "reading a local variable that was never bound is not modelled (UnboundLocalError); excluded here by A-SIG0"],
     "undecided": ["signals: delivery and the handler task are outside the deductive reach (bounded harness)"],
     "level": "other",
@@ -366,7 +368,8 @@ PROPS["C15"] = {
                    "startup-failure-timeout-or-cancellation-gives-status-1, non-CLI:returns-0-only-after-the-shutdown-event",
 }
 PROPS["C19"] = {
-    "functions": ["_context.inject.resolve_resources", "_context.inject.resolve_resources_async", "_context.inject.resolve_forward_refs",
+    "functions": ["_context.inject.sync_wrapper", "_context.inject.async_wrapper",
+                  "_context.inject.resolve_resources", "_context.inject.resolve_resources_async", "_context.inject.resolve_forward_refs",
                   "_context.Context.get_resource_nowait", "_context.Context.get_resource", "_context.current_context", "lemma:frame"],
     "clauses": lambda q, o: q.startswith("_context.inject") or q.startswith("lemma") or q.endswith("current_context") or any(
         t in o["id"] for t in ("canary", "ResourceNotFound", "never-raises-on-a-hit", "optional", "returns", "result")),
@@ -374,8 +377,7 @@ PROPS["C19"] = {
                               "A-TYPING get_type_hints / get_origin / get_args are side-effect free",
                               "lemma:frame (proved every run)"],
     "assumptions": CTX_ASSUME + [
-        "the wrappers sync_wrapper / async_wrapper (func(*args, **kwargs, **resolve_resources())) and the decoration-time scan of the signature "
-        "(inspect.signature, Parameter kinds) are covered by the bounded harness only",
+        "the decoration-time scan of the signature (inspect.signature, Parameter kinds, which wrapper is returned) is covered by the bounded harness only",
         "which class an annotation denotes (typing introspection) is trusted; the marker's cls/optional fields are what resolve_forward_refs stored"],
     "undecided": ["decoration-time rejections (positional-only / unannotated / uncalled resource) - bounded harness"],
     "level": "other",
@@ -384,8 +386,10 @@ PROPS["C19"] = {
                   "the context current at call time with (marker.cls, marker.name) and optional=True iff the marker is optional, store that lookup's result "
                   "under the parameter's name in a private dict and return a dict with exactly the markers' parameter names; any exception of a lookup "
                   "(ResourceNotFound for a missing non-optional resource) propagates before the wrapper can call the function; resolve_forward_refs sets "
-                  "the resolved flag only when resolution completed. The lookup contracts themselves are C03/C04. Bounded: wrappers, decoration-time checks.",
-    "level_note": "Not counted as proved: sync_wrapper/async_wrapper argument passing, signature scan (bounded harness: 2204/42072 scenarios).",
+                  "the resolved flag only when resolution completed; sync_wrapper / async_wrapper resolve exactly once and first, enter the original "
+                  "function at most once and only after a successful resolution, pass the caller's positional and keyword arguments unchanged plus the "
+                  "resolved dict, and return its result. The lookup contracts themselves are C03/C04. Bounded: decoration-time checks.",
+    "level_note": "Not counted as proved: the decoration-time signature scan (bounded harness: 2204/42072 scenarios).",
     "design_ref": "DESIGN.md section 5 (C19)",
     "technique": "contract-based deductive verification of inject()'s resolver closures (pyvc + z3) over the verified lookup contracts + bounded differential harness",
     "explanation": "lookup:in-the-context-current-at-call-time, lookup:annotated-type-and-marker-name, lookup:optional-iff-the-marker-is-optional, "
